@@ -119,6 +119,13 @@ def TokenTail (rest txt rest' : Bytes) : Prop :=
   ∃ w₁ w₂ items w₃, rest = w₁ ++ [0x3a] ++ w₂ ++ strBytes items ++ w₃ ++ [0x7d] ++ rest' ∧ Ws w₁ ∧ Ws w₂ ∧ Ws w₃ ∧
     StrWF items = true ∧ decodeItems items = some txt ∧ IsNumber txt
 
+/-- the shape clause of the language accepted under `arbitrary_precision`, on the bytes: every string literal that stands
+    directly after a `{` — outside string literals, whitespace apart: the scan is in mode `out true` where it begins — and
+    decodes to the token is followed by a well-shaped tail -/
+def TokenObjectsShaped (bs : Bytes) : Prop :=
+  ∀ (pre : Bytes) (k : List StrItem) (rest : Bytes), bs = pre ++ strBytes k ++ rest → (lexRun {} pre).mode = .out true →
+    StrWF k = true → decodeItems k = some token → ∃ txt rest', TokenTail rest txt rest'
+
 mutual
 /-- every object whose first key decodes to the token is a `TokenObject` -/
 def TokenShaped : CST → Prop
